@@ -606,6 +606,10 @@ def join_path(root: str, rel: str) -> str:
 def gen_rel_path(rs) -> str:
     depth = rs.choice([0, 0, 1, 2, 3])
     parts = [rs.choice(PATH_PARTS) for _ in range(depth)]
+    if depth and rs.random() < 0.08:
+        # a ".." segment that does not leave the directory it is under: a
+        # path keeps the spelling it was given ("a/../b.wav" is not "b.wav")
+        parts.insert(rs.randint(1, depth), "..")
     stem = rs.choice(["rec", "ünï rec", "a b", "x.y", "日本", "0001",
                       "pa\u0301jaro", "Ω", "rec", "a b", "back\\slash",
                       "50%", "c#4", "~x", "t:1"])
@@ -673,6 +677,16 @@ def gen_world(struct_seed, value_seed, cfg) -> dict:
             value = value + f"#{len(tags)}"
         seen.add((label, value))
         tags.append([label, value])
+        if rv.random() < 0.12:
+            # two distinct tags that read the same once label and value are
+            # joined into one string, whatever the separator: ("time",
+            # "start:12") and ("time:start", "12")
+            sep = rv.choice([":", "/", "|", "=", " ", ",", "", "_", "-", ": "])
+            mid = rv.choice(["x", "start", "1", "e\u0301", "k"])
+            for pair in ((label, mid + sep + value), (label + sep + mid, value)):
+                if pair not in seen:
+                    seen.add(pair)
+                    tags.append(list(pair))
     nt = len(tags)
 
     recordings = []
